@@ -158,6 +158,7 @@ def assemble(pieces):
     cur = ''.join(out).count('\n') + 1
     for p in pieces:
         if isinstance(p, Fragment):
+            p.text = p.fmt(p.text)
             txt = p.text if p.text.endswith('\n') else p.text + '\n'
             n = txt.count('\n')
             lines_map.append((cur, cur + n - 1, p))
@@ -344,6 +345,7 @@ def _run_unit(unit_dir, repo, workdir, rlimit=None, extra_args=None, timeout=900
                  'obligation': obl,
                  'function': fn_name,
                  'in_real_code': (frag or sec_frag).what if (frag or sec_frag) else None,
+                 '_frag': (frag or sec_frag),
                  'rendered': d.get('rendered', '')[:3000]}
         # untagged `assert` in a proof block / precondition of a lemma call: a step of OUR proof script, not a clause
         # of a contract.  Its failure means the script no longer replays on this code -> undecided, never an alarm.
@@ -367,18 +369,24 @@ def _run_unit(unit_dir, repo, workdir, rlimit=None, extra_args=None, timeout=900
     lost = [h for fr in x.fragments for h in getattr(fr, 'lost_hints', [])]
     res['lost_hint_anchors'] = lost
     if lost and viol:
-        tagged = [v for v in viol if re.search(r'#obl:' + re.escape(v['obligation'] or '~'), text)]
-        if tagged:
-            viol = tagged
-        else:
-            undec = undec + [dict(v, message='proof step failed after a hint anchor was lost: ' + v['message']) for v in viol]
-            viol = []
+        # a function whose proof script lost an anchor is not decided by its failures (tagged or not): the proof may
+        # simply be incomplete for the changed code.  Failures in functions whose script is intact still count.
+        keep = []
+        for v in viol:
+            fr = v.get('_frag')
+            if fr is not None and getattr(fr, 'lost_hints', []):
+                undec.append(dict(v, message='proof script lost an anchor in this function (' + str(fr.lost_hints[0])[:60] + '): ' + v['message']))
+            else:
+                keep.append(v)
+        viol = keep
+    for v in viol + undec:
+        v.pop('_frag', None)
     nobl = len(res['named_obligations'])
     res['obligations'] = res['verified_fns'] + vr.get('errors', 0)
     res['discharged'] = res['verified_fns']
     # a query that ran out of solver resources says nothing about the *other* queries: failures reported with a
     # solver model in those stay violations
-    soft = [u for u in undec if any(k in u['message'].lower() for k in ('rlimit', 'resource limit'))]
+    soft = [u for u in undec if any(k in u['message'].lower() for k in ('rlimit', 'resource limit', 'proof step of the verification script'))]
     if viol and undec and len(soft) == len(undec):
         res['rlimit_queries'] = [f"{u['function']} @{u['line']}" for u in soft]
         undec = []
